@@ -6,7 +6,9 @@ use std::panic;
 
 mod util;
 mod fixture;
+mod c01;
 mod c02;
+mod c08;
 mod c14;
 mod c20;
 
@@ -36,7 +38,12 @@ fn main() {
     match prop {
         "C14" => { c14::run(&mut r); c20::run(&mut r) }
         "C20" => c20::run(&mut r),
+        "C01" => c01::run_c01(&mut r),
+        "C04" => c01::run_c04(&mut r),
+        "C06" => c01::run_c06(&mut r),
+        "C07" => c01::run_c07(&mut r),
         "C02" => c02::run(&mut r),
+        "C08" => c08::run(&mut r),
         _ => {}
     }
     println!("{}", json!({"property": prop, "cases": r.cases, "failing": r.failing}));
